@@ -340,6 +340,38 @@ def with_form_overwidth(chk):
             f.hook.remove_function(f)
 
 
+def nested_with_same_model(chk):
+    """one width model registered twice with the context-manager form, the blocks nested: leaving the inner block takes back the inner registration only, passes
+    solved later inside the outer block still leave with the prescribed width; after the outer block the default (usable width) is back"""
+    from pyroll.core import RollPass, Roll, Profile, CircularOvalGroove
+
+    def fs(self):
+        return 50e6
+
+    def model(self, cycle):
+        return None if cycle else 0.9 * self.roll_pass.usable_width
+
+    def solved():
+        rp = RollPass(roll=Roll(groove=CircularOvalGroove(depth=8e-3, r1=6e-3, r2=40e-3), nominal_radius=160e-3, rotational_frequency=1), gap=2e-3)
+        rp.solve(Profile.round(diameter=30e-3, temperature=1473.15, strain=0, material="C45", length=1))
+        b = rp.out_profile.cross_section.bounds
+        return (b[2] - b[0]) / rp.usable_width
+    hf = RollPass.Profile.flow_stress(fs)
+    try:
+        with RollPass.OutProfile.width(model):
+            with RollPass.OutProfile.width(model):
+                inner = solved()
+            outer = solved()
+        after = solved()
+        chk.cov['evaluations'] += 3
+    finally:
+        hf.hook.remove_function(hf)
+    if not (abs(inner - 0.9) < 1e-6 and abs(outer - 0.9) < 1e-6 and abs(after - 1) < 1e-6):
+        return chk.fail('width', f"a width model prescribing 0.9 x usable width, registered by two nested `with RollPass.OutProfile.width(model):` blocks: the out profile spans "
+                        f"{inner:.6f} x usable width inside the inner block, {outer:.6f} after it inside the outer block (expected 0.9), {after:.6f} after both (expected 1)",
+                        {'case': 'nested-with'})
+
+
 def near_widths_same_pass(chk):
     """one pass object solved with two width prescriptions that differ by less than a tenth of a millimetre: each solve delivers exactly its own width"""
     from pyroll.core import Roll, RollPass, Profile, CircularOvalGroove
@@ -506,6 +538,8 @@ def run(chk):
         solved_passes(chk, rng)
     if not chk.failures:
         with_form_overwidth(chk)
+    if not [f for f in chk.failures if f.key != 'in-profile-explicit-width']:
+        nested_with_same_model(chk)
     if not chk.failures:
         plugin_wrapper_on_base(chk)
     if not chk.failures:
